@@ -76,7 +76,7 @@ def worlds(n_neighbours, cutoffs, L=60):
     ring with the neighbour / the focus across or on the origin"""
     gaps = gap_alphabet(cutoffs)
     seen = set()
-    for circ, starts in ((False, (20, 0, L - GENE_LEN)), (True, (20, 0, 1, L - 1, L - 2, L - GENE_LEN))):
+    for circ, starts in ((False, (20, 0, L - GENE_LEN)), (True, (20, 1, L - 2, L - GENE_LEN))):
         for fstart in starts:
             focus = ring_loc(fstart, GENE_LEN, L, 1)
             options = placements(L, circ, fstart, gaps, strand=-1 if fstart % 2 else 1)
